@@ -31,6 +31,8 @@ pub enum Item {
     Req { h: usize, b: Option<usize> },
     /// a header line that never ends
     Endless,
+    /// request with a chunked body of `b` data bytes sent in chunks of `cs`; head of `h` bytes
+    Chunked { h: usize, b: usize, cs: usize },
 }
 #[derive(Serialize, Deserialize, Clone, Debug, PartialEq)]
 pub enum BAct {
@@ -247,6 +249,40 @@ pub fn head_bytes(h: usize, b: Option<usize>) -> Vec<u8> {
     assert_eq!(s.len(), h);
     s.into_bytes()
 }
+pub const CHUNKED_BASE: usize = "POST / HTTP/1.1\r\ntransfer-encoding: chunked\r\n\r\n".len();
+pub fn chunked_head(h: usize) -> Vec<u8> {
+    assert!(h >= CHUNKED_BASE && h - CHUNKED_BASE <= 2000);
+    format!("POST /{} HTTP/1.1\r\ntransfer-encoding: chunked\r\n\r\n", "a".repeat(h - CHUNKED_BASE)).into_bytes()
+}
+pub fn chunked_body(b: usize, cs: usize) -> Vec<u8> {
+    let cs = cs.max(1);
+    let mut out = Vec::with_capacity(b + b / cs * 8 + 16);
+    let mut left = b;
+    while left > 0 {
+        let n = left.min(cs);
+        out.extend_from_slice(format!("{:x}\r\n", n).as_bytes());
+        out.extend(std::iter::repeat(b'c').take(n));
+        out.extend_from_slice(b"\r\n");
+        left -= n;
+    }
+    out.extend_from_slice(b"0\r\n\r\n");
+    out
+}
+/// encoded length of a chunked body
+pub fn chunked_body_len(b: usize, cs: usize) -> usize {
+    let cs = cs.max(1);
+    let full = b / cs;
+    let rest = b % cs;
+    full * (hexlen(cs) + 2 + cs + 2) + if rest > 0 { hexlen(rest) + 2 + rest + 2 } else { 0 } + 5
+}
+/// (head length, total wire length) of a finite item
+pub fn item_lens(it: &Item) -> Option<(usize, usize)> {
+    match it {
+        Item::Req { h, b } => Some((*h, h + b.unwrap_or(0))),
+        Item::Chunked { h, b, cs } => Some((*h, h + chunked_body_len(*b, *cs))),
+        Item::Endless => None,
+    }
+}
 pub fn stream_bytes(items: &[Item], need: usize) -> Vec<u8> {
     let mut out = Vec::with_capacity(need);
     for it in items {
@@ -259,6 +295,10 @@ pub fn stream_bytes(items: &[Item], need: usize) -> Vec<u8> {
                 if let Some(n) = b {
                     out.extend(std::iter::repeat(b'p').take(*n));
                 }
+            }
+            Item::Chunked { h, b, cs } => {
+                out.extend_from_slice(&chunked_head(*h));
+                out.extend_from_slice(&chunked_body(*b, *cs));
             }
             Item::Endless => {
                 out.extend_from_slice(b"GET / HTTP/1.1\r\nx: ");
@@ -634,7 +674,7 @@ pub fn coq_hact(a: &HAct) -> String {
         HAct::Wait => "HWait".into(),
         HAct::Read => "HRead".into(),
         HAct::ReadAll => "HReadAll".into(),
-        HAct::Drop => "HDrop_not_modelled".into(),
+        HAct::Drop => "HDrop".into(),
         HAct::Respond(b) => {
             let h = resp_head_len(b);
             match b {
@@ -664,6 +704,7 @@ pub fn coq_f(f: &F) -> String {
 pub fn h431_for(c: &Case) -> usize {
     match c.items.first() {
         Some(Item::Req { h, .. }) if *h < MAXB => head_len(HeadKind::E431After),
+        Some(Item::Chunked { .. }) => head_len(HeadKind::E431After),
         _ => head_len(HeadKind::E431),
     }
 }
@@ -675,32 +716,41 @@ pub fn h431_for(c: &Case) -> usize {
 pub fn normalize(c: &mut Case) {
     let mut seen_body = false;
     for it in c.items.iter_mut() {
-        if let Item::Req { h, b } = it {
-            if b.is_some() {
-                if seen_body {
-                    *b = None;
-                    *h = fit_head(*h, None);
-                }
-                seen_body = true;
+        let is_body = matches!(it, Item::Req { b: Some(_), .. } | Item::Chunked { .. });
+        if is_body {
+            if seen_body {
+                let h = match it {
+                    Item::Req { h, .. } => *h,
+                    _ => 18,
+                };
+                *it = Item::Req { h: fit_head(h, None), b: None };
             }
+            seen_body = true;
         }
     }
-    if let Some(i) = c.items.iter().position(|it| matches!(it, Item::Req { b: Some(_), .. })) {
+    if let Some(i) = c.items.iter().position(|it| matches!(it, Item::Req { b: Some(_), .. } | Item::Chunked { .. })) {
         for h in c.handlers.iter_mut().take(i) {
             h.retain(|a| matches!(a, HAct::Respond(_)));
             h.truncate(1);
         }
-        // the handler of the body request reads its body to the end before it answers
+        let chunked = matches!(c.items[i], Item::Chunked { .. });
         if let Some(h) = c.handlers.get_mut(i) {
-            if let Some(p) = h.iter().position(|a| matches!(a, HAct::Respond(_))) {
-                if !h[..p].contains(&HAct::ReadAll) {
-                    h.insert(p, HAct::ReadAll);
+            if chunked {
+                // chunked bodies are only used in drain mode: the handler drops the payload first
+                h.retain(|a| !matches!(a, HAct::Read | HAct::ReadAll | HAct::Drop));
+                h.insert(0, HAct::Drop);
+            } else if !h.contains(&HAct::Drop) {
+                // the handler of a Content-Length request reads its body to the end before it answers
+                if let Some(p) = h.iter().position(|a| matches!(a, HAct::Respond(_))) {
+                    if !h[..p].contains(&HAct::ReadAll) {
+                        h.insert(p, HAct::ReadAll);
+                    }
                 }
             }
         }
     }
     if !c.items.iter().any(|i| matches!(i, Item::Endless)) {
-        let total: usize = c.items.iter().map(|i| if let Item::Req { h, b } = i { h + b.unwrap_or(0) } else { 0 }).sum();
+        let total: usize = c.items.iter().map(|i| item_lens(i).map_or(0, |l| l.1)).sum();
         let mut left = total;
         for r in c.rounds.iter_mut() {
             r.add = r.add.min(left);
@@ -713,6 +763,8 @@ pub fn coq_case(c: &Case, fix21: bool) -> String {
     let items = coq_rle(&c.items, |it| match it {
         Item::Req { h, b } => format!("(IReq {h} {})", coq_opt_n(*b)),
         Item::Endless => "IEndless".into(),
+        // lengths only: the decoder consumes the encoded body like a Length body of that size
+        Item::Chunked { h, b, cs } => format!("(IReq {h} (Some {}))", chunked_body_len(*b, *cs)),
     });
     let handlers = coq_rle(&c.handlers, |h| coq_rle(h, coq_hact));
     let rounds = coq_rle(&c.rounds, |r| {
